@@ -23,6 +23,27 @@ Proof.
   - intros He. exists (EWire id). split; [exact He|reflexivity].
 Qed.
 
+Definition err_id (e : ev) : option nat := match e with EErrOut (VErr id) => Some id | _ => None end.
+(* the ids of the requests whose error was logged by the error drain, in log order *)
+Definition err_list (n : net val loc ev) : list nat := omap err_id (log n).
+
+Lemma err_list_elem n id : id ∈ err_list n <-> EErrOut (VErr id) ∈ log n.
+Proof.
+  unfold err_list. rewrite elem_of_list_omap. split.
+  - intros (e & He & Hw). destruct e as [i|i|i|v]; simpl in Hw; try discriminate.
+    destruct v; try discriminate. injection Hw as ->. exact He.
+  - intros He. exists (EErrOut (VErr id)). split; [exact He|reflexivity].
+Qed.
+
+Lemma errs_of_list fill_ok write_ok reqs n :
+  Forall (PE fill_ok write_ok reqs) (log n) -> errs_of n = list_to_set_disj (err_list n).
+Proof.
+  unfold errs_of, err_list. induction (log n) as [|e l IH]; intros H; simpl; [reflexivity|].
+  apply Forall_cons in H as [He Hl]. rewrite (IH Hl).
+  destruct e as [id|id|id|v]; simpl; try multiset_solver.
+  destruct He as [-> | (i & -> & _)]; simpl; multiset_solver.
+Qed.
+
 Lemma mult1_NoDup (l : list nat) :
   (forall x, x ∈ l -> multiplicity x (list_to_set_disj l : gmultiset nat) = 1) -> NoDup l.
 Proof.
@@ -89,6 +110,60 @@ Proof.
   - intros x. rewrite due_elem. split; [apply Hfate|].
     intros Hw. apply (elem_of_list_to_set_disj (A := nat)). apply elem_of_multiplicity.
     rewrite (Hone _ Hw). lia.
+Qed.
+
+
+(* ---- the same for the error stream: the request errors logged by the drain are exactly the requests
+   that did NOT become a frame (error attached, Fill failed or the write failed), each once ---- *)
+Definition errdue : list nat := fst <$> filter (fun r => sent_b r = false) reqs.
+
+Lemma errdue_elem id : id ∈ errdue <-> errfate fill_ok write_ok reqs id.
+Proof.
+  unfold errdue, errfate, errfate1, has, sent_b. rewrite elem_of_list_fmap. split.
+  - intros ([i b] & -> & Hin). apply elem_of_list_filter in Hin as [Hs Hin]. simpl in *.
+    destruct b; [left; left; exact Hin|]. simpl in Hs.
+    destruct (fill_ok i) eqn:Hf; [|left; right; auto].
+    destruct (write_ok i) eqn:Hw; [discriminate|]. right. auto.
+  - intros [[Hin | [Hin Hf]] | (Hin & Hf & Hw)].
+    + exists (id, true). split; [reflexivity|]. apply elem_of_list_filter. split; [reflexivity|exact Hin].
+    + exists (id, false). split; [reflexivity|]. apply elem_of_list_filter. split; [|exact Hin]. simpl. rewrite Hf. reflexivity.
+    + exists (id, false). split; [reflexivity|]. apply elem_of_list_filter. split; [|exact Hin]. simpl. rewrite Hf, Hw. reflexivity.
+Qed.
+
+Lemma errdue_NoDup : NoDup errdue.
+Proof.
+  unfold errdue. clear -Hnodup. induction reqs as [|[i b] l IH]; [constructor|].
+  rewrite fmap_cons in Hnodup. apply NoDup_cons in Hnodup as [Hni Hl]. specialize (IH Hl).
+  rewrite filter_cons. destruct (decide (sent_b (i, b) = false)) as [Hs|Hs]; [|exact IH].
+  rewrite fmap_cons. apply NoDup_cons. split; [|exact IH].
+  intros Hin. apply Hni. apply elem_of_list_fmap in Hin as (r & Hr & Hin). apply elem_of_list_filter in Hin as [_ Hin].
+  apply elem_of_list_fmap. exists r. auto.
+Qed.
+
+Lemma errfate_has id : errfate fill_ok write_ok reqs id -> exists b, has reqs id b.
+Proof. intros [[H | [H _]] | (H & _)]; eauto. Qed.
+
+Theorem pipeline_errors_exact cap n :
+  reachable beh (init N cap reqs) n -> cancelled n = false -> quiescent n ->
+  err_list n ≡ₚ errdue.
+Proof.
+  intros Hr Hc Hq.
+  destruct (pipeline_typed N fill_ok write_ok reqs cap n Hr) as [[_ Hlog] _].
+  assert (Hfate : forall id, id ∈ err_list n -> errfate fill_ok write_ok reqs id).
+  { intros id Hin. apply err_list_elem in Hin. rewrite Forall_forall in Hlog.
+    destruct (Hlog _ Hin) as [Hv | (i & Hv & He)]; [discriminate|]. injection Hv as ->. exact He. }
+  assert (Hone : forall id, errfate fill_ok write_ok reqs id ->
+                 multiplicity id (list_to_set_disj (err_list n) : gmultiset nat) = 1).
+  { intros id He. rewrite <- (errs_of_list fill_ok write_ok reqs n Hlog).
+    destruct (errfate_has id He) as [b Hh].
+    destruct (pipeline_terminal N fill_ok write_ok reqs Hnodup cap n id b Hr Hc Hq Hh) as [_ H2].
+    apply H2. intros Hw. exact (wire_not_err fill_ok write_ok reqs Hnodup id Hw He). }
+  apply NoDup_Permutation.
+  - apply mult1_NoDup. intros x Hx. apply Hone. apply Hfate. exact Hx.
+  - apply errdue_NoDup.
+  - intros x. rewrite errdue_elem. split; [apply Hfate|].
+    intros He. apply (elem_of_list_to_set_disj (A := nat)). apply elem_of_multiplicity.
+    rewrite (Hone _ He). lia.
 Qed.
 
 End wire.
